@@ -16,7 +16,9 @@
 From Coq Require Import List NArith ZArith Bool Arith.
 Require Import RV.Model.Base RV.Model.Ring.
 Require RV.Model.Flow.
-Require Import RV.Proofs.RingBase RV.Proofs.RingInv RV.Proofs.RingInv2 RV.Proofs.RingTheorems RV.Proofs.RingProgress.
+Require Import RV.Model.QueueSpec.
+Require Import RV.Proofs.RingBase RV.Proofs.RingInv RV.Proofs.RingInv2 RV.Proofs.RingTheorems RV.Proofs.RingProgress
+               RV.Proofs.RingRefine RV.Proofs.RingEF.
 Require RV.Proofs.FlowProofs.
 Import ListNotations.
 Local Open Scope nat_scope.
@@ -25,6 +27,15 @@ Local Open Scope nat_scope.
 Theorem C02_wrap : forall k x, k <= 32 -> idx k (u32 x) = N.to_nat (x mod 2 ^ N.of_nat k)%N.
 Proof. exact ring_wrap. Qed.
 Print Assumptions C02_wrap.
+
+(** refinement: under [abs] (fill history per slot + the three cursors) every step of the ring is a step of
+    the abstract queue of positions [QueueSpec] with the same output - a ticket, a fill of the next position
+    of a free slot, the writer's dequeue of position n1+1, the reader's completion of position n2+1 - or a
+    stutter (locks, condition variables, sleep flags, uint32 counters are invisible) *)
+Theorem C02_refines_fifo : forall k start st l st', reachable k start st -> lstep k st l = Some st' ->
+  refines_step k start st st'.
+Proof. exact ring_refines. Qed.
+Print Assumptions C02_refines_fifo.
 
 (** the writer's j-th dequeue is the command of position j, i.e. the [lap j]-th command that filled
     slot [sof j]: the writer walks the positions in order *)
@@ -88,6 +99,15 @@ Theorem C02_not_stuck : forall k start st, reachable k start st -> (n2 st < nw s
   exists l st', lstep k st l = Some st' /\ progress st l st'.
 Proof. exact ring_not_stuck. Qed.
 Print Assumptions C02_not_stuck.
+
+(** AG EF: from every reachable state there is a finite continuation without new tickets after which every
+    ticket holder's command has been written and completed and the reader is idle.  (Existence of a
+    schedule; fair termination under the Go scheduler is not claimed.) *)
+Theorem C02_all_answered_EF : forall k start st, reachable k start st ->
+  exists sch st', run k sch st = Some st' /\ forallb no_ticket sch = true /\
+                  nw st' = nw st /\ n2 st' = nw st' /\ n1 st' = nw st' /\ rpc st' = RIdle.
+Proof. exact ring_all_answered_EF. Qed.
+Print Assumptions C02_all_answered_EF.
 
 (** ---- flow buffer ---- *)
 
